@@ -1290,3 +1290,86 @@ def driver_datagram_tables(ctx, rid):
     puts = sorted({e for e in evs if e.startswith("<BufferWriter as BytesWriter>::put_varint(")})
     ctx.check(rid, "the header written is the varint of the quarter stream id", len(puts) == 1 and puts[0].endswith("," + QID + ")"),
               "driver Datagram::write writes %s, expected put_varint(.., %s)" % (puts, QID), where(f), key="datagram header normal form")
+
+
+# ------------------------------------------------------------------ VarInt::size as a partition of the value range
+
+def varint_size_table(ctx, rid):
+    """`VarInt::size()` == the RFC 9000 §16 table, stated as the partition of 0..=2^62-1 it induces: every path that returns a constant
+    size constrains the value to an interval (derived from the path's comparisons, whatever their spelling: `<=`, `<`, ranges, match arms);
+    the intervals must be exactly [0,63]->1, [64,16383]->2, [16384,2^30-1]->4, [2^30,..]->8."""
+    import intervals
+    A = ctx.A
+    V = SPEC["varint"]
+    f = A.fn("wtransport_proto::varint::VarInt::size")
+    got = []
+    subj = None
+    for p in nonpanic(walk(f)):
+        if p.leaf[0] != "return":
+            continue
+        v = const_val(p.leaf[1])
+        if not isinstance(v, int):
+            got.append(("?", canon(p.leaf[1])))
+            continue
+        # the compared expression: the VarInt's inner value
+        xs = [a[2] for a in p.atoms if a[0] == "cmp" and intervals.cval(a[3]) is not None] + [a[3] for a in p.atoms if a[0] == "cmp" and intervals.cval(a[2]) is not None] \
+            + [a[1] for a in p.atoms if a[0] == "eq"]
+        xs += [e[2][1] for a in p.atoms if a[0] == "cond" for e in [a[1]] if isinstance(e, tuple) and e[0] == "call" and "contains" in e[1] and len(e[2]) == 2]
+        if not xs:
+            got.append((None, None, v))
+            continue
+        x = xs[0]
+        lo, hi = intervals.bounds(p.atoms, x)
+        got.append((lo or 0, hi, v))
+    want = []
+    prev = 0
+    for ub, sz in sorted(V["size_thresholds"]):
+        want.append((prev, ub, sz))
+        prev = ub + 1
+    norm = sorted({(lo, (hi if hi is not None and hi < V["max"] else V["max"]), sz) for lo, hi, sz in got
+                   if lo != "?" and lo is not None and not (hi is not None and hi < lo)})   # empty intervals = infeasible paths of a range match
+    ctx.check(rid, "VarInt::size partition", norm == sorted(want) and not any(g[0] == "?" for g in got),
+              "VarInt::size() maps value ranges %s to sizes; RFC 9000 §16 requires %s" % (norm, sorted(want)), where(f), key="VarInt::size partition")
+
+
+# ------------------------------------------------------------------ adapters between quinn streams and the proto crate's AsyncRead / AsyncWrite
+
+def proto_io_adapters(ctx, rid):
+    """Every control-plane byte reaches the protocol crate through `<QuicRecvStream as proto::AsyncRead>::poll_read`: it must read straight
+    into the caller's buffer and report exactly the number of bytes quinn filled (`filled().len()`), otherwise partially arrived fields are
+    taken as complete; `poll_write` must hand quinn the caller's slice and return quinn's count."""
+    A = ctx.A
+    f = A.fn("<wtransport::driver::streams::QuicRecvStream as wtransport_proto::bytes::AsyncRead>::poll_read")
+    with depth_limit(12):
+        sg = sorted(path_sig(p) for p in nonpanic(walk(f)))
+    RD = r"<RecvStream as AsyncRead>::poll_read\(self\.0,cx,ReadBuf::new\(buf\)\)"
+    okk = len(sg) == 3 and any(re.search(r"^return Poll::Ready\(Result::Ok\(<impl \[T\]>::len\(ReadBuf::filled\(ReadBuf::new\(buf\)\)\)\)\)$", l) for _, l in sg) and any(l == "return Poll::Pending" for _, l in sg)
+    ctx.check(rid, "QuicRecvStream::poll_read (proto AsyncRead)", okk, "QuicRecvStream's AsyncRead impl no longer reads straight into the caller's buffer and returns filled().len(): %s" % [l for _, l in sg], where(f))
+    f = A.fn("<wtransport::driver::streams::QuicSendStream as wtransport_proto::bytes::AsyncWrite>::poll_write")
+    sg = [path_sig(p)[1] for p in nonpanic(walk(f))]
+    ctx.check(rid, "QuicSendStream::poll_write (proto AsyncWrite)", sg == ["return <SendStream as AsyncWrite>::poll_write(self.0,cx,buf)"] or (len(sg) == 1 and re.match(r"^return <SendStream as AsyncWrite>::poll_write\(.*self\.0.*,cx,buf\)$", sg[0])), "QuicSendStream's AsyncWrite impl changed: %s" % sg, where(f))
+
+
+# ------------------------------------------------------------------ public accept wrappers delegate before anything else
+
+def accept_wrappers(ctx, rid):
+    """`Connection::accept_uni / accept_bi / receive_datagram` first ask the driver (which drains what is already queued and only then
+    reports the termination cause); no path returns before that await, and the error is the driver's, converted."""
+    A = ctx.A
+    for nm in ("accept_uni", "accept_bi", "receive_datagram"):
+        f = A.find1(r"^wtransport::connection::Connection::%s::\{closure#0\}$" % nm)
+        ps = nonpanic(walk(f))
+        bad = []
+        for p in ps:
+            ev = event_strs(p)
+            first_effect = [e for e in ev if not e.startswith(("Driver::%s(" % nm,))][:1]
+            okp = bool(first_effect) and first_effect[0] == "await Driver::%s(self.driver,self.session_id)" % nm
+            # nothing is decided before the driver answered: the first guard on the path is about the driver's result
+            at = path_sig(p)[0]
+            if at and not re.match(r"^await\(Driver::%s\(self\.driver,self\.session_id\)\) (ok|fails)$" % nm, at[0]):
+                okp = False
+            if not okp:
+                bad.append((list(at[:2]), path_sig(p)[1][:80]))
+        ctx.check(rid, "Connection::%s asks the driver first on every path" % nm, bool(ps) and not bad,
+                  "Connection::%s can return without (or decides before) awaiting Driver::%s: items already handed to the session's queue would never be delivered: %s" % (nm, nm, bad[:2]),
+                  where(f), key="Connection::%s asks the driver first" % nm)
